@@ -35,20 +35,61 @@ def run(cx):
     ho = Origins(hc)
     kids = {k.path: k for k in prog.children(hc)}
 
+    ELIG = {}
+
     with cx.ob("C13.1", "R-TABLE", "eligibility predicate: true only for High ∧ not self ∧ has address ∧ not connected ∧ not pending ∧ backoff elapsed") as ob:
-        fl = hc.calls_to("core::iter::traits::iterator::Iterator::filter")
-        ob.floor(fl, 1, "filter in handle_connectivity_check", exact=True)
-        src = ho.of_operand(fl[0].args[0])
+        # the eligible set is computed either as `known_peers.values().filter(<closure>).cloned().collect()` or by the
+        # written-out loop `for info in known_peers.values() { if <tests> { continue } eligible.push(info.clone()) }`
+        fl = [c for c in hc.calls_to("core::iter::traits::iterator::Iterator::filter") if not hc.is_cleanup(c.bb)]
+        nxs = [c for c in hc.calls() if not hc.is_cleanup(c.bb) and name_matches(c.fn, "Iterator::next")
+               and term_has_call(ho.of_operand(c.args[0]), "HashMap::values") and term_has_call(ho.of_operand(c.args[0]), f"{CM}::KnownPeers::inner")]
+        loop_form = not fl and len(nxs) == 1
+        if not loop_form:
+            ob.floor(fl, 1, "filter in handle_connectivity_check", exact=True)
+            src = ho.of_operand(fl[0].args[0])
+            cl = ho.of_operand(fl[0].args[1])
+            b = kids.get(cl[2]) if cl[0] == "agg" else None
+            if b is None:
+                raise AnchorLost("eligibility closure")
+            kw_words = {}
+
+            def is_pi(t):
+                return mentions_param(t, "peer_info")
+            ELIG["term"] = lambda t: term_has_call(t, "Iterator::filter") and term_has_call(t, "Iterator::collect")
+        else:
+            ob.count(1)
+            src = ho.of_operand(nxs[0].args[0])
+            b = hc
+            head = nxs[0].bb
+            si_ = switch_info(hc, nxs[0].target, ho)
+            some_t = [t_ for t_, ls_ in (si_[1].items() if si_ else []) if ls_ == {"Some"}]
+            if len(some_t) != 1:
+                raise AnchorLost("`Some(info)` edge of the eligibility loop")
+            kw_words = {"start": some_t[0], "stops": [head]}
+
+            def is_pi(t):
+                return term_has_call(t, "Iterator::next") and term_has_call(t, "HashMap::values") and term_has_call(t, f"{CM}::KnownPeers::inner")
+            pushes = [c for c in hc.calls_to("vec::Vec::push") if not hc.is_cleanup(c.bb) and is_pi(ho.of_operand(c.args[1]))]
+            ob.floor(pushes, 1, "eligible.push(info.clone()) in the eligibility loop", exact=True)
+            vec_t = strip_identity(ho.of_operand(pushes[0].args[0]))
+            ob.require(vec_t[0] == "call" and name_matches(vec_t[1], ("vec::Vec::new", "vec::Vec::with_capacity")), "eligible/loop-target", f"eligible peers are pushed to {show(vec_t)[:60]}", hc.path)
+            ELIG["term"] = lambda t, vec_t=vec_t: any(x == vec_t for x in walk(t))
         ob.require(term_has_call(src, "HashMap::values") and term_has_call(src, f"{CM}::KnownPeers::inner") and mentions_field(src, "known_peers"), "eligible/source",
                    f"eligible peers are filtered from {show(src)[:100]}", hc.path)
-        cl = ho.of_operand(fl[0].args[1])
-        b = kids.get(cl[2]) if cl[0] == "agg" else None
-        if b is None:
-            raise AnchorLost("eligibility closure")
         sub = {k.path: k for k in prog.children(b)}
 
+        def X(t):
+            """the term in handle_connectivity_check's own context (closure captures replaced by what was captured)"""
+            return expand_upvars(prog, b, t) if b is not hc else t
+
         def pid(t):
-            return mentions_field(t, "peer_id") and mentions_param(t, "peer_info")
+            return mentions_field(t, "peer_id") and is_pi(t)
+
+        def is_now(t):
+            return mentions_upvar(t, "now") or mentions_param(t, "now")
+
+        def on_self_field(t, f):
+            return mentions_upvar(t, "self__" + f) or (mentions_field(X(t), f) and mentions_param(X(t), "self"))
 
         def call_sym(c, o):
             return None
@@ -57,19 +98,25 @@ def run(cx):
             g = strip_identity(t)
             while g[0] in ("field", "variant"):
                 g = strip_identity(g[1])
-            return g[0] == "call" and name_matches(g[1], "HashMap::get") and mentions_upvar(g[2][0], "self__dial_backoff_states") and pid(g[2][1])
+            return g[0] == "call" and name_matches(g[1], "HashMap::get") and on_self_field(g[2][0], "dial_backoff_states") and pid(g[2][1])
 
         def extra(a, bb, subj, labels, o):
             lab = "|".join(sorted(labels))
-            if subj[0] == "discr" and mentions_field(subj[1], "affinity") and mentions_param(subj[1], "peer_info"):
+            if subj[0] == "discr" and mentions_field(subj[1], "affinity") and is_pi(subj[1]):
                 return "aff=" + lab
-            if subj[0] == "discr" and backoff_state(subj[1]) and not any(x[0] == "variant" for x in walk(strip_identity(subj[1]))):
+            if subj[0] == "discr" and backoff_state(subj[1]) and strip_identity(subj[1])[0] == "call":
                 return "backoff-state=" + lab          # the written-out form of `.map(|s| now > s.backoff).unwrap_or(true)`
             n = normalize_cmp(subj)
             if n is not None:
                 neg, op, x, y = n
+                if op in ("lt", "le", "gt", "ge") and labels in ({"true"}, {"false"}):
+                    bx = mentions_field(x, "backoff") and backoff_state(strip_identity(x)[1] if strip_identity(x)[0] == "field" else x)
+                    by = mentions_field(y, "backoff") and backoff_state(strip_identity(y)[1] if strip_identity(y)[0] == "field" else y)
+                    if (bx and is_now(y)) or (by and is_now(x)):
+                        tv = cmp_truth(op, bool(bx), labels, neg)          # truth of `backoff >= now`
+                        return ("elapsed=" + str(not tv).lower()) if tv is not None else f"?cmp:{op}"
                 if op in ("eq", "ne") and labels in ({"true"}, {"false"}):
-                    sides = sorted(("peer" if pid(t) else "own" if (term_has_call(t, "anemo::endpoint::Endpoint::peer_id") and mentions_upvar(t, "self__endpoint")) else "?") for t in (x, y))
+                    sides = sorted(("peer" if pid(t) else "own" if (term_has_call(t, "anemo::endpoint::Endpoint::peer_id") and on_self_field(t, "endpoint")) else "?") for t in (x, y))
                     if sides == ["own", "peer"]:
                         differs = ((labels == {"true"}) != neg) == (op == "ne")
                         return "is-self=" + str(not differs).lower()
@@ -81,11 +128,11 @@ def run(cx):
             s = strip_identity(s)
             if s[0] == "call" and labels in ({"true"}, {"false"}):
                 val = (labels == {"true"}) != neg
-                if name_matches(s[1], "vec::Vec::is_empty") and mentions_field(s[2][0], "address") and mentions_param(s[2][0], "peer_info"):
+                if name_matches(s[1], "vec::Vec::is_empty") and mentions_field(s[2][0], "address") and is_pi(s[2][0]):
                     return "no-address=" + str(val).lower()
-                if name_matches(s[1], "HashMap::contains_key") and mentions_field(s[2][0], "connections") and mentions_upvar(s[2][0], "active_peers") and pid(s[2][1]):
+                if name_matches(s[1], "HashMap::contains_key") and mentions_field(s[2][0], "connections") and (mentions_upvar(s[2][0], "active_peers") or (term_has_call(X(s[2][0]), "ActivePeers::inner") and mentions_field(X(s[2][0]), "active_peers"))) and pid(s[2][1]):
                     return "connected=" + str(val).lower()
-                if name_matches(s[1], "HashMap::contains_key") and mentions_upvar(s[2][0], "self__pending_dials") and pid(s[2][1]):
+                if name_matches(s[1], "HashMap::contains_key") and on_self_field(s[2][0], "pending_dials") and pid(s[2][1]):
                     return "pending=" + str(val).lower()
             return None
 
@@ -98,27 +145,31 @@ def run(cx):
             return None
 
         def call_sym2(c, o):
+            if loop_form:
+                if name_matches(c.fn, "vec::Vec::push"):
+                    return "ret=true" if (c.bb == pushes[0].bb and term_has_call(o.of_operand(c.args[1]), "Clone::clone")) else "push(?)"
+                return None
             if c.dest == 0 and not b.is_cleanup(c.bb):
                 t = strip_identity(("call", c.fn, tuple(o.of_operand(a) for a in c.args), c.bb))
                 if name_matches(c.fn, ("cmp::PartialOrd::gt", "cmp::PartialOrd::ge", "cmp::PartialOrd::lt", "cmp::PartialOrd::le")) and len(t[2]) == 2:
                     x_, y_ = t[2]
                     if name_matches(c.fn, ("cmp::PartialOrd::lt", "cmp::PartialOrd::le")):
                         x_, y_ = y_, x_                 # `backoff < now`  ==  `now > backoff`
-                    if mentions_upvar(x_, "now") and mentions_field(y_, "backoff") and backoff_state(strip_identity(y_)[1] if strip_identity(y_)[0] == "field" else y_):
+                    if is_now(x_) and mentions_field(y_, "backoff") and backoff_state(strip_identity(y_)[1] if strip_identity(y_)[0] == "field" else y_):
                         return "ret=backoff-elapsed"
                 # any combinator spelling of "no backoff state, or its backoff has elapsed": `.map(|s| now > s.backoff).unwrap_or(true)`,
                 # `.map_or(true, ..)`, `.is_none_or(|s| s.backoff < now)`, ... - decided on the value's case table
                 def atom(t_):
-                    if t_[0] == "call" and name_matches(t_[1], "HashMap::get") and mentions_upvar(t_[2][0], "self__dial_backoff_states") and pid(t_[2][1]):
+                    if t_[0] == "call" and name_matches(t_[1], "HashMap::get") and on_self_field(t_[2][0], "dial_backoff_states") and pid(t_[2][1]):
                         return "state"
                     if t_[0] == "call" and name_matches(t_[1], ("cmp::PartialOrd::gt", "cmp::PartialOrd::ge", "cmp::PartialOrd::lt", "cmp::PartialOrd::le")) and len(t_[2]) == 2:
                         x_, y_ = t_[2]
                         swap = name_matches(t_[1], ("cmp::PartialOrd::lt", "cmp::PartialOrd::le"))
                         if swap:
                             x_, y_ = y_, x_
-                        if mentions_upvar(x_, "now") and mentions_field(y_, "backoff"):
+                        if is_now(x_) and mentions_field(y_, "backoff"):
                             return ("elapsed", "bool")
-                        if mentions_upvar(y_, "now") and mentions_field(x_, "backoff"):
+                        if is_now(y_) and mentions_field(x_, "backoff"):
                             return ("not-elapsed", "bool")
                     return None
                 vc = value_cases(prog, t, atom)
@@ -139,7 +190,10 @@ def run(cx):
                     return "ret=backoff-elapsed-or-none"
                 return "ret=?call:" + c.fn.split("::")[-1]
             return None
-        ws = {fmt_word(w) for w in seq_words(b, call_sym2, stmt_sym, extra, inline_prog=prog)}     # predicate helpers are inlined
+        ws = {fmt_word(w) for w in seq_words(b, call_sym2, (None if loop_form else stmt_sym), extra, inline_prog=prog, **kw_words)}     # predicate helpers are inlined
+        if loop_form:
+            # one iteration: reaching the loop head again without the push = "not eligible"
+            ws = {(w if "ret=true" in w.split() else w.replace("<stop>", "ret=false <stop>")) for w in ws}
         # order-insensitive semantics of the conjunction: a path may answer "eligible" only after ALL tests passed;
         # every other path answers false and has at least one failed test.
         need = {"aff": "High", "is-self": "false", "no-address": "false", "connected": "false", "pending": "false"}
@@ -156,7 +210,7 @@ def run(cx):
             if ret[0] in ("ret=backoff-elapsed-or-none", "ret=true", "ret=backoff-elapsed"):
                 n_true += 1
                 missing = {k: v for k, v in need.items() if conds.get(k) != v}
-                if ret[0] == "ret=true" and conds.get("backoff-state") != "None":
+                if ret[0] == "ret=true" and not (conds.get("backoff-state") == "None" or (conds.get("backoff-state") == "Some" and conds.get("elapsed") == "true")):
                     missing["backoff"] = "elapsed-or-none"
                 if ret[0] == "ret=backoff-elapsed" and conds.get("backoff-state") != "Some":
                     missing["backoff"] = "state-present"
@@ -165,7 +219,7 @@ def run(cx):
                 else:
                     ob.matched += 1
             elif ret[0] == "ret=false":
-                failed = [k for k, v in need.items() if k in conds and not (conds[k] == v)]
+                failed = [k for k, v in need.items() if k in conds and not (conds[k] == v)] + (["elapsed"] if conds.get("elapsed") == "false" and conds.get("backoff-state") == "Some" else [])
                 if not failed:
                     ob.fail("refuted", "eligible/too-strict/" + w.replace(" ", "_")[:140], f"eligibility predicate: path `{w}` answers false although every test it made passed", b.path, b.loc(), path=w)
                 else:
@@ -175,8 +229,9 @@ def run(cx):
         ob.require(n_true >= 1, "eligible/some-eligible-path", "eligibility predicate never answers eligible", b.path)
         ob.set_sample({"closure": b.path, "table": sorted(ws)})
         # the guards captured are the live maps
-        caps = {u["name"] for u in b.upvars}
-        ob.require({"active_peers", "self__pending_dials", "self__dial_backoff_states", "self__endpoint", "now"} <= caps, "eligible/captures", f"closure captures {sorted(caps)}", b.path)
+        if not loop_form:
+            caps = {u["name"] for u in b.upvars}
+            ob.require({"active_peers", "self__pending_dials", "self__dial_backoff_states", "self__endpoint", "now"} <= caps, "eligible/captures", f"closure captures {sorted(caps)}", b.path)
 
     with cx.ob("C13.2", "R-FLOW", "backoff: attempts+1, now + min(max, step×attempts); drain: success clears, failure updates/creates with (now, step, max), unfinished kept") as ob:
         ub = cx.body(f"{BS}::update")
@@ -227,6 +282,13 @@ def run(cx):
                 (a0[0] == "upvar" and term_has_call(expand_upvars(prog, kb, a0), "Instant::now"))
             return now_ok and term_has_call(a1, "anemo::config::Config::connection_backoff") and term_has_call(a2, "anemo::config::Config::max_connection_backoff")
 
+        def on_states(t):
+            """the map is self.dial_backoff_states - captured by field, or through an alias (`let states = &mut self.dial_backoff_states`)"""
+            if mentions_upvar(t, "self__dial_backoff_states"):
+                return True
+            e = expand_upvars(prog, d, t)
+            return mentions_field(e, "dial_backoff_states") and mentions_param(e, "self")
+
         def upsert(c, o, which):
             """`entry.and_modify(|s| s.update(now, step, max))` / `.or_insert_with(|| DialBackoffState::new(now, step, max))`"""
             cl = o.of_operand(c.args[1])
@@ -243,17 +305,17 @@ def run(cx):
             if name_matches(c.fn, "tokio::sync::oneshot::Receiver::try_recv"):
                 return "try_recv" if is_param(o.of_operand(c.args[0]), "oneshot") else "try_recv(?)"
             if name_matches(c.fn, "HashMap::remove"):
-                ok = mentions_upvar(o.of_operand(c.args[0]), "self__dial_backoff_states") and is_param(o.of_operand(c.args[1]), "peer_id")
+                ok = on_states(o.of_operand(c.args[0])) and is_param(o.of_operand(c.args[1]), "peer_id")
                 return "clear-backoff" if ok else "remove(?)"
             if name_matches(c.fn, "HashMap::entry"):
-                ok = mentions_upvar(o.of_operand(c.args[0]), "self__dial_backoff_states") and is_param(strip_identity(o.of_operand(c.args[1])), "peer_id")
+                ok = on_states(o.of_operand(c.args[0])) and is_param(strip_identity(o.of_operand(c.args[1])), "peer_id")
                 return "entry" if ok else "entry(?)"
             if name_matches(c.fn, "HashMap::get_mut"):
-                ok = mentions_upvar(o.of_operand(c.args[0]), "self__dial_backoff_states") and is_param(strip_identity(o.of_operand(c.args[1])), "peer_id")
+                ok = on_states(o.of_operand(c.args[0])) and is_param(strip_identity(o.of_operand(c.args[1])), "peer_id")
                 return "get_mut" if ok else "get_mut(?)"
             if name_matches(c.fn, f"{BS}::update"):
                 recv = o.of_operand(c.args[0])
-                on_state = term_has_call(recv, "OccupiedEntry::get_mut") or (term_has_call(recv, "HashMap::get_mut") and mentions_upvar(recv, "self__dial_backoff_states"))
+                on_state = term_has_call(recv, "OccupiedEntry::get_mut") or (term_has_call(recv, "HashMap::get_mut") and on_states(recv))
                 return "update(now,step,max)" if args_ok(c, o, 1) and on_state else "update(?)"
             if name_matches(c.fn, f"{BS}::new"):
                 return "new(now,step,max)" if args_ok(c, o, 0) else "new(?)"
@@ -264,7 +326,7 @@ def run(cx):
             if name_matches(c.fn, "hash::map::Entry::or_insert_with"):
                 return "or_insert_with{new(now,step,max)}" if term_has_call(o.of_operand(c.args[0]), "Entry::and_modify") and upsert(c, o, "new") else "or_insert_with(?)"
             if name_matches(c.fn, "HashMap::insert"):
-                ok = mentions_upvar(o.of_operand(c.args[0]), "self__dial_backoff_states") and is_param(strip_identity(o.of_operand(c.args[1])), "peer_id") \
+                ok = on_states(o.of_operand(c.args[0])) and is_param(strip_identity(o.of_operand(c.args[1])), "peer_id") \
                     and term_has_call(o.of_operand(c.args[2]), f"{BS}::new")
                 return "insert" if ok else "upsert(?)insert"
             if name_matches(c.fn, ("hash::map::Entry::or_insert", "hash::map::Entry::or_default", "hash::map::Entry::insert_entry")):
@@ -376,7 +438,7 @@ def run(cx):
         ok = n[0] == "call" and name_matches(n[1], ("cmp::min", "cmp::Ord::min"))
         if ok:
             xs = [strip_identity(x) for x in n[2]]
-            ln = [x for x in xs if x[0] == "call" and name_matches(x[1], "vec::Vec::len") and term_has_call(x, "Iterator::filter")]
+            ln = [x for x in xs if x[0] == "call" and name_matches(x[1], "vec::Vec::len") and ELIG.get("term", lambda t: False)(x)]
             sb = [x for x in xs if x[0] == "call" and name_matches(x[1], "num::saturating_sub")]
             ok = len(ln) == 1 and len(sb) == 1 and term_has_call(sb[0][2][0], "anemo::config::Config::max_concurrent_outstanding_connecting_connections") \
                 and strip_identity(sb[0][2][1])[0] == "call" and name_matches(strip_identity(sb[0][2][1])[1], "JoinSet::len") and mentions_field(sb[0][2][1], "pending_connections")
@@ -386,7 +448,7 @@ def run(cx):
         ob.require(mentions_field(t_, "max_concurrent_outstanding_connecting_connections") and mentions_param(t_, "self"), "cap/getter",
                    f"max_concurrent_outstanding_connecting_connections() = {show(t_)[:80]}", gb_.path)
         it = ho.of_operand(tk[0].args[0])
-        ob.require(term_has_call(it, "Iterator::filter") and term_has_call(it, "Iterator::collect"), "cap/over-eligible", f"take over {show(it)[:80]}", hc.path)
+        ob.require(ELIG.get("term", lambda t: False)(it), "cap/over-eligible", f"take over {show(it)[:80]}", hc.path)
         nx = [c for c in hc.calls() if name_matches(c.fn, "Iterator::next") and term_has_call(ho.of_operand(c.args[0]), "Iterator::take") and not hc.is_cleanup(c.bb)]
         ob.require(len(nx) == 1 and hc.calls_to(f"{MGR}::dial_peer") and hc.dominates(nx[0].bb, hc.calls_to(f"{MGR}::dial_peer")[0].bb), "cap/loop-iterates-take", "dial loop does not iterate the capped iterator", hc.path)
         # dials go through pending_connections (so they count)
